@@ -252,3 +252,12 @@ impl Session {
         self.base_settings.add_root_certificate(cert);
     }
 }
+
+#[cfg(feature = "verif-hooks")]
+impl Session {
+    /// Read-only snapshot of this session's settings.
+    #[doc(hidden)]
+    pub fn verif_settings(&self) -> crate::verif_hooks::SettingsSnapshot {
+        crate::verif_hooks::snapshot(&self.base_settings)
+    }
+}
